@@ -263,7 +263,7 @@ func planC03(tier string, seed int64) (*core.Plan, error) {
 		Models: []core.ModelRun{model},
 		Rule:   "seeded random (pre tree, entry point, source subtree, strategy upsert/insert/update) single steps and histories of 4-11 steps on fixtures S0 and S1 (compound keys, nested lists, nested/shorthand choices) for every store kind (legacy Reflect and nodeutil.Node over maps, slices of maps, structs) x source kind (JSON text, and each store kind); non-trivial: the operation changes the target or fails",
 		NonTrivial: func(r core.Rec) bool {
-			return canonJSON(r["pre"]) != canonJSON(r["post"]) || !(r["res"].(core.Rec)["ok"].(bool))
+			return canonJSON(r["pre"]) != canonJSON(r["post"]) || !resOK(r)
 		},
 		Assumptions: []string{"stores are built and read back directly (Go maps/structs), not through the library", "fixtures compile to the committed abstract schemas spec/S0.json, spec/S1.json, spec/M0.json (checked on every run)", "errors classified with errors.Is only"},
 	}
@@ -326,4 +326,11 @@ func storeModelRun(module string, maxNodes int, timeoutMin int) (core.ModelRun, 
 		MustCover:   []string{"DoEdit", "DoDelete", "DoReplace"},
 		Description: fmt.Sprintf("store state machine on fixture M0 (keys k1,k2; one value per leaf), %d operations (all source subtrees <= %d nodes at every entry point x upsert/insert/update/replace, delete); invariants WellFormed/KeysUnique/OneCase; per-transition assertions (outcome predicate admits canonical outcome, idempotence, frame, update creates nothing, replace leaves exactly the source)", len(ops), maxNodes),
 	}, nil
+}
+
+// resOK: the operation of an edit record succeeded (records of other kinds - skips, crashes - count as not ok)
+func resOK(r core.Rec) bool {
+	res, _ := r["res"].(core.Rec)
+	ok, _ := res["ok"].(bool)
+	return ok
 }
